@@ -117,7 +117,10 @@ void h_run(Case &c) {
   if (!df.empty()) {   // the statement lists the tree, the objects and their attributes, not the assignment of objects to levels: when only that differs
                        // (hwloc edits the level arrays in place when it merges levels at load or restrict time, a reload levels the same tree afresh) the case is counted
     std::string ta = strip_levels(dump_topology(t, what)), tb = strip_levels(dump_topology(r, what)); if (stale_ccs) { ta = mask_mem_ccs(ta); tb = mask_mem_ccs(tb); }
-    std::string df2 = first_diff(ta, tb); CHECK(c, df2.empty(), "reload_equal", "the reloaded topology differs from the exported one: %s", df2.c_str()); c.cls("reload:same-tree-levelled-differently"); }
+    std::string df2 = first_diff(ta, tb);
+    // open finding F-C05-e: the first difference is a mergeable Group with a single child that the reload merged away (level merging is not idempotent on asymmetric trees)
+    if (!df2.empty() && df2.find("A:") != std::string::npos) { size_t a = df2.find("A:"), b = df2.find("B:", a); std::string la = df2.substr(a, b == std::string::npos ? std::string::npos : b - a); if (la.find(" Group ") != std::string::npos && la.find("dont_merge=0) arity=1/0/0/0") != std::string::npos) c.fail("reload_group_merged", "a Group with a single child that the load kept is merged by the reload of the topology's own export: %s", df2.c_str()); }
+    CHECK(c, df2.empty(), "reload_equal", "the reloaded topology differs from the exported one: %s", df2.c_str()); c.cls("reload:same-tree-levelled-differently"); }
   // userdata delivered exactly as exported
   { auto v1 = all_objs(t), v2 = all_objs(r); CHECK(c, v1.size() == v2.size(), "reload_equal", "object count %zu vs %zu", v1.size(), v2.size());
     for (size_t i = 0; i < v1.size(); i++) { UD *a = (UD *)v1[i]->userdata, *b = (UD *)v2[i]->userdata; size_t na = a ? a->items.size() : 0, nb = b ? b->items.size() : 0;
@@ -185,6 +188,13 @@ bool h_named(const std::string &name, Case &c) {
       std::string df = first_diff(strip_levels(dump_topology(t, DUMP_GP)), strip_levels(dump_topology(r, DUMP_GP))); CHECK(c, df.empty(), "reload_equal", "clusters of %u within %u starting at node L#%u: the reloaded topology differs from the exported one: %s", in, out, first, df.c_str());
       hwloc_topology_destroy(r); hwloc_topology_destroy(t); }
     return true; }
+  if (name == "F-C05-e") { c.desc("regress/C05/F-C05-e.xml (asymmetric generated document, default filters): load, export, reload: the reload merges a Group level the load kept");
+    std::string path = "/verif/regress/C05/F-C05-e.xml"; hwloc_topology_t t; hwloc_topology_init(&t); CHECK(c, hwloc_topology_set_xml(t, path.c_str()) == 0 && hwloc_topology_load(t) == 0, "named_setup", "cannot load %s", path.c_str()); require_wf(c, t, "load");
+    { hwloc_obj_t g = hwloc_topology_alloc_group_object(t); g->cpuset = hwloc_bitmap_dup(hwloc_get_obj_by_type(t, HWLOC_OBJ_NUMANODE, 0)->cpuset); hwloc_bitmap_or(g->cpuset, g->cpuset, hwloc_get_obj_by_type(t, HWLOC_OBJ_PU, 0)->cpuset); g->attr->group.dont_merge = 1; hwloc_obj_t got = hwloc_topology_insert_group_object(t, g); c.descf(" + a dont_merge Group with the cpuset of NUMA node 0 -> %s", got ? (got == g ? "new" : "existing") : "NULL"); require_wf(c, t, "after the group insertion"); }
+    std::string X = xml_of(c, t, 0, false); hwloc_topology_t r = reload(c, X, 0, false, false); require_wf(c, r, "reload");
+    std::string ta = strip_levels(dump_topology(t, DUMP_GP)), tb = strip_levels(dump_topology(r, DUMP_GP)); std::string df2 = first_diff(ta, tb);
+    if (!df2.empty() && df2.find(" Group ") != std::string::npos && df2.find("dont_merge=0) arity=1/0/0/0") != std::string::npos) c.fail("reload_group_merged", "a Group with a single child that the load kept is merged by the reload of the topology's own export: %s", df2.c_str());
+    CHECK(c, df2.empty(), "reload_equal", "the reloaded topology differs: %s", df2.c_str()); hwloc_topology_destroy(r); hwloc_topology_destroy(t); return true; }
   if (name == "F-C05-c") {   // stale memattr value exported after a restrict
     c.desc("numa:3 pack:2 core:2 pu:1; custom attribute with one value for initiator PU 0; restrict(all but PU 0); export, reload, re-export");
     hwloc_topology_t t; hwloc_topology_init(&t); hwloc_topology_set_synthetic(t, "numa:3 pack:2 core:2 pu:1"); hwloc_topology_load(t);
